@@ -34,6 +34,7 @@ func init() {
 			need(m, &out, "auto_pid_streams_written", 100)
 			need(m, &out, "readded_pids_written", 20)
 			need(m, &out, "sweep_lengths", 1200)
+			need(m, &out, "explicit_pid_reassigned_automatically", 100)
 			return out
 		},
 	})
@@ -267,6 +268,18 @@ func runC01(c *mon.Ctx) {
 		if i < 2 {
 			c.Sample("histories", histSample(hr))
 		}
+	}
+	// an explicit PID is removed and the same PID is handed out again by automatic assignment
+	nra := c.Pick(200, 3000)
+	for i := int64(0); i < nra; i++ {
+		if !c.Mine("readd-auto", i) {
+			continue
+		}
+		r := c.Rng("readd-auto", i)
+		ops := readdAutoScenario(r)
+		hr := runHistory(ops, 1+r.IntN(6))
+		checkRoundTrip(c, "readd-auto", i, hr)
+		c.Count("explicit_pid_reassigned_automatically")
 	}
 	// sweep: every payload length for 8 header / adaptation field shapes
 	lens := []int{}
